@@ -151,7 +151,7 @@ def run(ctx):
             chk.ob('O3', 'mirror[%s/%s]' % (c, d), okc and okd, CL.where(), CL.name,
                    'init calls %s on every path: %s; cleanup calls %s on every path: %s' % (c, okc, d, okd))
         if 'SNOOPY_CONF_THREAD_SAFETY_ENABLED' in prog.macros:
-            N = prog.require_func('snoopy_tsrm_createNewThreadData')
+            N = common.thread_data_maker(prog)
             D = prog.require_func('snoopy_tsrm_dtor')
             allocated = set()
             for n in [x for g in common.with_helpers(prog, N) for x in g.body.walk()]:
